@@ -195,7 +195,11 @@ class DebugInfo:
             else:
                 # there should have been an empty block marker inside.
                 found_marker = False
-                for addr in self.empty_blocks:
+                for addr, owner in self.empty_blocks:
+                    if owner is not None and owner is not block:
+                        # the marker of another block (it may lie at
+                        # the end of the block before this one)
+                        continue
                     if start_offset <= addr < end_offset:
                         found_marker = True
                         add_node_record(block.start_stmt,
@@ -302,8 +306,8 @@ class DebugInfoCollector:
         assert start_node == node, 'Incorrect debug info'
         self._nodes.append((node, start_offset, code_offset))
 
-    def mark_empty_block(self, code_offset):
-        self._empty_blocks.append(code_offset)
+    def mark_empty_block(self, code_offset, owner=None):
+        self._empty_blocks.append((code_offset, owner))
 
     def get_debug_info(self):
         global_consts = eval_consts(self._global_consts)
